@@ -224,3 +224,40 @@ Proof.
     + intros (m & e & Hin & Hm & Ht). exists e. split; [|exact Ht]. apply in_map_iff. eauto.
 Qed.
 Print Assumptions C01_close_errors_preserved.
+
+(* ---- the library members, concretely ----
+   The hypotheses of the per-wrapper lemmas are discharged for the packet type used in the
+   differential run (TWCC via C15's SetExtension model): EVERY list of library members
+   (kind codes of Check/C01Check.v, any order, any length, any options) bound as a chain is
+   transparent for in-scope packets (RFC 8285 profile or no extension, stream packets
+   <= 1460 bytes, TWCC id 0 or 1..14). *)
+From IV Require Import Proofs.TwccHdrExtProofs Check.C01Check Proofs.ChainInstanceProofs.
+
+Theorem C01_library_chain_transparent : forall (c : cfg) (ms : list member_desc),
+  c_sid c = 0 \/ 1 <= c_sid c <= 14 ->
+  transparentL pkt (upto_tcc (c_sid c)) (Pok_c c) (fun S inner => chain_bind (map (wr_of c) ms) inner).
+Proof. exact library_chain_transparent. Qed.
+Print Assumptions C01_library_chain_transparent.
+
+(* RTP and RTCP read side: no scope condition on the configuration *)
+Theorem C01_library_read_chains_transparent : forall (c : cfg) (ms : list member_desc),
+  rtransparentL (option hdr) hdr rparse (tcc_ext c) (fun sts => length sts = length ms)
+    (fun S inner => rchain_bind (map (rd_of c) ms) inner) /\
+  rtransparentL (option hdr) hdr rparse (tcc_ext c) (fun sts => length sts = length ms)
+    (fun S inner => rchain_bind (map crd_of ms) inner).
+Proof. exact library_read_chain_transparent. Qed.
+Print Assumptions C01_library_read_chains_transparent.
+
+(* non-vacuity: the scope contains packets with CSRC list, one-byte extension and padding *)
+Example C01_scope_inhabited :
+  Pok_c (5000, 5, true, true, 888888, 118)
+        (mkH [2; 1; 1; 96; 7; 9; 5000; 4; 11; 12] true PROFILE_ONE [(3, [1; 2])], (1, 1460)).
+Proof. split; [right; left; reflexivity|intros _; cbn; lia]. Qed.
+Print Assumptions C01_scope_inhabited.
+
+(* outside the scope the header-extension member does refuse packets (stated, not hidden):
+   id 15 on a one-byte-profile header *)
+Example C01_twcc_out_of_scope_refuses :
+  set_tcc 15 0 (mkH [2; 0; 0; 96; 7; 9; 5000; 0] true PROFILE_ONE [(3, [1; 2])], (1, 10)) = None.
+Proof. reflexivity. Qed.
+Print Assumptions C01_twcc_out_of_scope_refuses.
